@@ -149,7 +149,27 @@ def c13_r3(ctx: Ctx, rule):
                     res.fail(rule.id, "empty-set-intolerant::%s" % q, ctx.loc(q, n),
                              "%s walks the whole attribute map and applies first()/len()==1 to value sets without skipping empty ones" % short(q),
                              "doc.serialize(format='rdf') (or any read of formal_attributes/label) followed by a JSON export prints None / raises for attributes that were only looked up")
-    # the truth test of the multimap as a whole must not be the only guard
+    # `k in X._attributes` is no evidence of a value: reads of the defaultdict leave empty entries behind, so a
+    # membership test that guards first()/indexing of the entry must be conjoined with a truth test of the entry
+    for q, fi in ctx.p.functions.items():
+        for n in walk_function(fi.node):
+            if not isinstance(n, (ast.If, ast.IfExp)):
+                continue
+            conj = n.test.values if isinstance(n.test, ast.BoolOp) and isinstance(n.test.op, ast.And) else [n.test]
+            for c in conj:
+                if not (isinstance(c, ast.Compare) and len(c.ops) == 1 and isinstance(c.ops[0], ast.In) and isinstance(c.comparators[0], ast.Attribute) and c.comparators[0].attr == mm):
+                    continue
+                entry = "%s[%s]" % (norm(c.comparators[0]), norm(c.left))
+                truthy = any(norm(o) in (entry, "len(%s)" % entry, "len(%s) > 0" % entry, "bool(%s)" % entry) for o in conj if o is not c)
+                body = n.body if isinstance(n, ast.If) else [n.body]
+                firsts = [x for b in body for x in ast.walk(b) if isinstance(x, ast.Call) and call_name(x) in ("first", "next", "min", "max", "sorted") and x.args and entry in norm(x.args[0])]
+                firsts += [x for b in body for x in ast.walk(b) if isinstance(x, ast.Subscript) and norm(x.value) in (entry, "list(%s)" % entry)]
+                ok = truthy or not firsts
+                res.ob("%s: membership test `%s` guards %d single-value read(s) of the entry: %s" % (short(q), norm(c), len(firsts), "conjoined with a truth test of the entry" if truthy else ("no single-value read" if ok else "NOT conjoined with a truth test")))
+                if not ok:
+                    res.fail(rule.id, "membership-as-presence::%s" % q, ctx.loc(q, n),
+                             "%s treats `%s` as proof that the attribute has a value and takes first() of the entry; reads through formal_attributes/args/get_attribute leave empty entries behind" % (short(q), norm(c)),
+                             "prov_to_dot(doc) / doc.serialize(format='rdf') followed by doc.get_provn() prints None where '-' was printed before")
     return res
 
 
@@ -181,7 +201,9 @@ def c13_r4(ctx: Ctx, rule):
                 res.fail(rule.id, "shared-id-generator::%s" % q, ctx.loc(mod, c), "the anonymous-identifier generator in %s outlives one container call" % q,
                          "the second export of the same document numbers anonymous relations from _:id7 instead of _:id1: the texts differ")
         if not sites:
-            raise AnalysisError("no AnonymousIDGenerator construction found in %s" % mod)
+            # the exporter no longer owns a generator: whatever numbers its blank nodes now is state that outlives the call
+            # unless the effect closure (C13.R1) shows otherwise; say so rather than fail the analysis
+            res.ob("%s constructs no AnonymousIDGenerator: blank-node numbering is left to C13.R1's effect closure" % mod)
     return res
 
 
@@ -205,6 +227,18 @@ def c12_r1(ctx: Ctx, rule):
         val = s.node.value
         fresh = is_fresh_expr(fi.node, val) or _is_ctor(ctx, fi, val)
         res.ob("%s: %s  [value fresh: %s]" % (short(s.func), s.text[:80], fresh))
+        if fresh and s.field == attr_slot(ctx):
+            # a fresh *map* is not enough for the attribute multimap: its values are mutable sets
+            rv = resolve_local(fi.node, val)
+            src = [x for x in ast.walk(rv) if isinstance(x, ast.Attribute) and x.attr == s.field]
+            comp = rv if isinstance(rv, ast.DictComp) else next((a for a in (rv.args if isinstance(rv, ast.Call) and call_name(rv) in ("defaultdict", "dict", "OrderedDict") else []) if isinstance(a, ast.DictComp)), None)
+            deep = comp is not None and isinstance(comp.value, ast.Call) and call_name(comp.value) in ("set", "list", "frozenset", "tuple", "copy") and all(any(x is y for g in comp.generators for y in ast.walk(g.iter)) for x in src)
+            deep = deep or (isinstance(rv, ast.Call) and (dotted(rv.func) or "").endswith("deepcopy"))
+            if src and not deep:
+                res.ob("%s: %s  [per-attribute sets copied: False]" % (short(s.func), s.text[:80]))
+                res.fail(rule.id, "alias-store-element::%s" % s.key, ctx.loc(s.func, s.node),
+                         "%s fills %s.%s with a shallow copy of another record's attribute map (%s): the per-attribute value sets are shared" % (short(s.func), s.receiver, s.field, norm(val)[:50]),
+                         "c = r.copy(); c.add_attributes({existing_name: new_value}) also changes r")
         if not fresh:
             res.fail(rule.id, "alias-store::%s" % s.key, ctx.loc(s.func, s.node),
                      "%s stores %s into the owned field %s.%s without copying" % (short(s.func), norm(val)[:60], s.receiver, s.field),
@@ -334,6 +368,86 @@ def c12_r4(ctx: Ctx, rule):
                      "%s keeps (part of) its argument %s by reference: %s" % (short(q2), k, how),
                      "d.update(other): a bundle of `other` becomes a bundle of d as well; adding a record through d changes other")
     return res
+
+
+@rule("C12", "C12.R5", "what a deriving operation stores by reference into its result is made on the spot", 1,
+      decides="unified / flattened / update never attach an object of the source (a bundle, a record) to the derived document")
+def c12_r5(ctx: Ctx, rule):
+    res = RuleResult()
+    eff = get_effects(ctx)
+    # callee name -> positions / names of parameters the callee keeps by reference (from the retention summaries)
+    keepers = {}
+    for q, s in eff.sum.items():
+        fi = ctx.p.functions.get(q)
+        if fi is None or not fi.cls or fi.cls not in (BUNDLE, DOC) or isinstance(fi.node, ast.Lambda):
+            continue
+        ps = fi.params
+        for k in s.retains:
+            if HOP not in k and k in ps[1:] and "prov.identifier.QualifiedName" not in eff.param_types.get(q, {}).get(k, set()):
+                keepers.setdefault(fi.name, set()).add((ps.index(k) - 1, k))
+    res.ob("methods of ProvBundle/ProvDocument that keep an argument by reference: %s" % sorted("%s(%s)" % (m, ",".join(sorted(k for _, k in v))) for m, v in keepers.items()), nontrivial=bool(keepers))
+    if not keepers:
+        raise AnalysisError("no retaining method found (add_bundle should keep its bundle)")
+    for q in (DOC + ".unified", BUNDLE + ".unified", DOC + ".flattened", DOC + ".update", BUNDLE + ".update"):
+        fi = ctx.fn(q)
+        for fq in ctx.helper_closure(q, 1):
+            ffi = ctx.fn(fq)
+            for c in calls_in(ffi.node):
+                if not isinstance(c.func, ast.Attribute) or c.func.attr not in keepers:
+                    continue
+                for idx, pname in sorted(keepers[c.func.attr]):
+                    a = c.args[idx] if idx < len(c.args) and not any(isinstance(x, ast.Starred) for x in c.args) else next((k.value for k in c.keywords if k.arg == pname), None)
+                    if a is None:
+                        continue
+                    ok, why = _made_on_the_spot(ctx, eff, ffi, a)
+                    res.ob("%s: %s keeps %s by reference: %s" % (short(fq), norm(c)[:60], norm(a), why))
+                    if not ok:
+                        res.fail(rule.id, "attaches-source-object::%s::%s" % (q, norm(c)[:50]), ctx.loc(fq, c),
+                                 "%s hands %s to %s, which keeps it by reference, and %s" % (short(fq), norm(a), c.func.attr, why),
+                                 "u = d.unified(); adding a record to a bundle of u adds it to the bundle of d")
+    return res
+
+
+def _made_on_the_spot(ctx, eff, fi, a):
+    """Every value the expression can denote is constructed in this function (constructor or a callee whose result is fresh)."""
+    def fresh_call(v):
+        if not isinstance(v, ast.Call):
+            return False
+        if _is_ctor(ctx, fi, v):
+            return True
+        name = call_name(v)
+        cands = [q for q, f2 in ctx.p.functions.items() if f2.name == name and f2.cls and not isinstance(f2.node, ast.Lambda)] if isinstance(v.func, ast.Attribute) else []
+        if isinstance(v.func, ast.Name):
+            r = ctx.p.resolve_name(fi.module, v.func.id)
+            cands = [r[1]] if r and r[0] == "func" else []
+        return bool(cands) and all(eff.sum[q].ret_fresh and not eff.sum[q].ret_roots and not eff.sum[q].ret_elem_roots for q in cands)
+
+    if isinstance(a, ast.Call):
+        return (fresh_call(a), "it is %sconstructed by the call" % ("" if fresh_call(a) else "not provably "))
+    if not isinstance(a, ast.Name):
+        return False, "it is %s, an existing object" % norm(a)
+    if a.id in fi.params:
+        return False, "it is the parameter %s" % a.id
+    defs = []
+    for n in walk_function(fi.node):
+        if isinstance(n, ast.Assign):
+            for t in n.targets:
+                if isinstance(t, ast.Name) and t.id == a.id:
+                    defs.append(n.value)
+                elif isinstance(t, (ast.Tuple, ast.List)) and any(isinstance(x, ast.Name) and x.id == a.id for x in ast.walk(t)):
+                    defs.append(None)
+        elif isinstance(n, (ast.For, ast.comprehension)) and any(isinstance(x, ast.Name) and x.id == a.id for x in ast.walk(n.target)):
+            defs.append(None)
+        elif isinstance(n, (ast.With,)) and any(i.optional_vars is not None and any(isinstance(x, ast.Name) and x.id == a.id for x in ast.walk(i.optional_vars)) for i in n.items):
+            defs.append(None)
+        elif isinstance(n, ast.NamedExpr) and n.target.id == a.id:
+            defs.append(n.value)
+    if not defs:
+        return False, "it has no local definition"
+    bad = [d for d in defs if d is None or not fresh_call(d)]
+    if bad:
+        return False, "it can be %s, which is not made on the spot" % ("a loop/unpacking variable" if bad[0] is None else norm(bad[0])[:50])
+    return True, "every definition of %s is a constructor or fresh-result call (%s)" % (a.id, "; ".join(norm(d)[:40] for d in defs))
 
 
 # ===================================================================================== C08
